@@ -293,7 +293,39 @@ def rule_play(ctx):
         ctx.ob('C12.play', f'{bi_.name}:{nm}:defined', nm in bi_.functions, f'builtins.{nm} must exist', None, bi_, nontrivial=False)
 
 
+def rule_meter(ctx):
+    ctx.rule('C12.rebase', 'changing beats_per_bar re-bases the bar map like a tempo change re-bases the beat map: the new base bar is the '
+                           '(rounded) bar of the current beat on the old map, computed before any map field is overwritten; '
+                           'bars_per_beat is the reciprocal of beats_per_bar; bar() and beat_in_bar() are read through that map')
+    ci = tc(ctx)
+    mod = ci.module
+    f = ci.setters['beats_per_bar']
+    ss = [x for x in walk_local_ordered(f.node) if isinstance(x, ast.Assign)]
+    pos = {norm(x.targets[0]): i for i, x in enumerate(ss)}
+    val = {norm(x.targets[0]): norm(x.value) for x in ss}
+    p1 = f.params[1]
+    ok = val.get('beats') == 'self.beats' and \
+        val.get('self._base_bar') == 'bi.round((beats - self._base_bar_beat) * self._bars_per_beat + self._base_bar, 1)' and \
+        val.get('self._base_bar_beat') == 'beats' and val.get('self._beats_per_bar') == p1 and val.get('self._bars_per_beat') == f'1 / {p1}'
+    ctx.ob('C12.rebase', f'{f.fq}:new-base', ok,
+           f'the meter setter must store round(beats2bars(beats)) as base bar, the current beat as base bar beat, the value and its reciprocal; '
+           f'found {val}', f.node, mod)
+    order_ok = all(k in pos for k in ('self._base_bar', 'self._base_bar_beat', 'self._bars_per_beat')) and \
+        pos['self._base_bar'] < pos['self._base_bar_beat'] and pos['self._base_bar'] < pos['self._bars_per_beat']
+    ctx.ob('C12.rebase', f'{f.fq}:old-map-read-first', order_ok,
+           'the base bar is computed from the old base bar beat and the old bars-per-beat: it must be assigned before those are overwritten',
+           f.node, mod)
+    src = full(f.node)
+    ctx.ob('C12.rebase', f'{f.fq}:own-thread-only', U.before(src, 'if _libsc3.main.current_tt._clock is not self: raise ClockError(', 'beats = self.beats'),
+           'the meter may only be changed from the clock\'s own scheduling thread (the current beat is that thread\'s logical beat)', f.node, mod)
+    b = ci.methods['bar']
+    ctx.ob('C12.rebase', f'{b.fq}', full(b.node).endswith('return float(bi.floor(self.beats2bars(self.beats)))'), 'the current bar is the floor of the bar map at the current beat', b.node, mod)
+    bb = ci.methods['beat_in_bar']
+    ctx.ob('C12.rebase', f'{bb.fq}', full(bb.node).endswith('return self.beats - self.bars2beats(self.bar())'), 'beat in bar = current beat - beat of the current bar line', bb.node, mod)
+
+
 def run(ctx):
+    rule_meter(ctx)
     rule_inv(ctx)
     rule_affine(ctx)
     rule_rebase(ctx)
@@ -301,6 +333,11 @@ def run(ctx):
 
 
 MUTANTS = [
+    dict(rule='C12.rebase', name='meter setter moves the base bar beat before computing the base bar', file='sc3/base/clock.py',
+         old="        self._base_bar = bi.round(\n            (beats - self._base_bar_beat) *\n            self._bars_per_beat + self._base_bar, 1)\n        self._base_bar_beat = beats\n",
+         new="        self._base_bar_beat = beats\n        self._base_bar = bi.round(\n            (beats - self._base_bar_beat) *\n            self._bars_per_beat + self._base_bar, 1)\n"),
+    dict(rule='C12.rebase', name='bars_per_beat not updated with the meter', file='sc3/base/clock.py',
+         old="        self._beats_per_bar = value\n        self._bars_per_beat = 1 / value\n", new="        self._beats_per_bar = value\n"),
     dict(rule='C12.rebase', name='(fix reverted) explicit seconds=0.0 replaced by the current time', file='sc3/base/clock.py',
          old="        self._base_seconds = _libsc3.main.current_tt._seconds\\\n            if seconds is None else seconds", new="        self._base_seconds = seconds or _libsc3.main.current_tt._seconds"),
     dict(rule='C12.rebase', name='explicit reference beat 0 replaced by the current beat (seed C12-c)', file='sc3/base/clock.py',
